@@ -198,6 +198,19 @@ def chkC17 (isInit : Bool) (acap ucap : Nat) (o : Obs) : Bool :=
      o.viewLen == acap && (acap == 0 || o.viewAt == .a 0) &&
      (isInit || slotsAll (fun i s => s == .sent i) o.arrA))
 
+/-- number of headers of this call written into the array -/
+def Obs.stored (o : Obs) : Nat :=
+  (o.arrA.filter fun s => match s with | .hdr _ => true | _ => false).length
+
+/-- capacity law on a pair: `small` = observation with capacity `cap`, `big` = observation of the same
+call with a larger capacity.  If the larger run stores at most `cap` headers the outcomes are the same,
+otherwise the smaller one is Err(TooManyHeaders). -/
+def chkC17cap (cap : Nat) (small big : Obs) : Bool :=
+  if big.stored ≤ cap then
+    small.st == big.st && small.spans == big.spans && small.nums == big.nums && small.hdrs == big.hdrs &&
+    small.stored == big.stored
+  else small.st == .e .tooManyHeaders && small.stored == cap
+
 /-! ### C20 -/
 
 /-- forward-only: the distance travelled by the cursor is at most the buffer length, and equals
